@@ -2009,14 +2009,26 @@ pub fn run(args: &Args) -> i32 {
         if input.class == "deep" {
             // child process: a stack overflow (SIGSEGV / abort) is an observable, not a harness crash
             let tmp = format!("{}.child{}", args.out, n);
-            let st = std::process::Command::new(&exe)
-                .args(["c12", "--seed", &args.seed.to_string(), "--cases", &args.cases.to_string(), "--only", &n.to_string()])
-                .args(["--out", &tmp, "--child", "1", "--repo", &repo, "--maxbytes", &max_bytes.to_string()])
-                .args(["--maxmodeltokens", &args.extra_usize("maxmodeltokens", 3000).to_string()])
-                .args(["--maxparseevents", &args.extra_usize("maxparseevents", 4000).to_string()])
-                .stdout(std::process::Stdio::null())
-                .stderr(std::process::Stdio::null())
-                .status();
+            // (a failure to *start* the child is a harness problem, not an observation: retry, then give up)
+            let mut st = Err(std::io::Error::other("not started"));
+            for attempt in 0..4 {
+                st = std::process::Command::new(&exe)
+                    .args(["c12", "--seed", &args.seed.to_string(), "--cases", &args.cases.to_string(), "--only", &n.to_string()])
+                    .args(["--out", &tmp, "--child", "1", "--repo", &repo, "--maxbytes", &max_bytes.to_string()])
+                    .args(["--maxmodeltokens", &args.extra_usize("maxmodeltokens", 3000).to_string()])
+                    .args(["--maxparseevents", &args.extra_usize("maxparseevents", 4000).to_string()])
+                    .stdout(std::process::Stdio::null())
+                    .stderr(std::process::Stdio::null())
+                    .status();
+                if st.is_ok() {
+                    break;
+                }
+                std::thread::sleep(std::time::Duration::from_millis(200 << attempt));
+            }
+            if let Err(e) = &st {
+                eprintln!("c12: cannot start the child process for case {n}: {e}");
+                return 3;
+            }
             let ok = matches!(&st, Ok(s) if s.success());
             match (ok, std::fs::read_to_string(&tmp)) {
                 (true, Ok(block)) => {
